@@ -143,6 +143,14 @@ def run(check):
     if not check.has_failing():
         folder_part(check)
     if not check.has_failing():
+        check.rule += ("; crate-names part: folder output over 2-4 crate directories whose names are different but related as texts (equal "
+                       "after case folding, after snake / camel / Pascal / SCREAMING conversion, after `-` -> `_`, after dropping separators "
+                       "or digits; prefixes of each other; with dots and digits), every listed pair of spellings and random sets, all six "
+                       "languages through the binary: exit 0 => every annotated item of every crate directory is defined exactly once in "
+                       "the output folder (crates whose Swift PascalCase file names coincide - the open finding swift-module-file-collision "
+                       "of C14 - are left out of the Swift runs' judgement)")
+        crate_names_part(check)
+    if not check.has_failing():
         quantity_part(check)
     if not check.has_failing():
         same_ident_part(check)
@@ -270,6 +278,166 @@ def folder_part(check):
                                     % (lang, crates, r["rc"], lost), case=case,
                                     impl={"rc": r["rc"], "stderr": r["err"][-1500:], "written": sorted(written)}, failing_input=True)
                     return
+
+
+# ----------------------------------------------------------------------------- the names of the crates in folder mode
+
+# word lists crate names are spelled from (lower-case ASCII words; a word may be a version such as `v2`)
+CRATE_NAME_BASES = [["auth", "api"], ["shared", "models"], ["api"], ["core", "types"], ["billing"], ["user", "profile", "v2"],
+                    ["io"], ["http", "client"], ["db", "v1"]]
+CRATE_NAME_UNRELATED = ["zeta", "common", "ledger"]
+# pairs of spellings that are different directories (and, `-`/`_` aside, different crates) but equal after one of the usual
+# normalisations: case folding, snake / camel / Pascal conversion, `-` -> `_`, dropping separators, cutting at a dot, dropping digits,
+# prefix matching.  Every pair is run in every language of the quick tier.
+CRATE_NAME_PAIRS = [("camel", "snake"), ("pascal", "snake"), ("upper-flat", "flat"), ("capitalised", "snake"), ("kebab", "snake"),
+                    ("flat", "snake"), ("double-underscore", "snake"), ("leading-underscore", "snake"), ("trailing-underscore", "snake"),
+                    ("dotted", "snake"), ("first-word", "snake"), ("digit-suffix", "snake"), ("digit-suffix", "digit-word"),
+                    ("screaming", "snake"), ("pascal", "camel"), ("train", "snake"), ("version-1", "version-10"), ("version-1", "snake"),
+                    ("capital-words", "snake"), ("digit-first", "snake"), ("extended", "snake"), ("plural", "snake")]
+
+
+def crate_name_spellings(words):
+    """{style: directory name} of one crate-name family"""
+    snake = "_".join(words)
+    cap = lambda w: w[:1].upper() + w[1:]
+    return {
+        "snake": snake, "kebab": "-".join(words), "camel": words[0] + "".join(cap(w) for w in words[1:]),
+        "pascal": "".join(cap(w) for w in words), "flat": "".join(words), "screaming": snake.upper(), "upper-flat": "".join(words).upper(),
+        "train": "-".join(cap(w) for w in words), "capital-words": "_".join(cap(w) for w in words), "capitalised": cap(snake),
+        "double-underscore": "__".join(words) if len(words) > 1 else snake + "__x", "leading-underscore": "_" + snake,
+        "trailing-underscore": snake + "_", "dotted": ".".join(words) if len(words) > 1 else snake + ".rs",
+        "digit-suffix": snake + "2", "digit-word": snake + "_2", "digit-first": "2" + snake,
+        "first-word": words[0] if len(words) > 1 else snake[:-1], "extended": snake + "_ext", "plural": snake + "s",
+        "version-1": snake + ".v1", "version-10": snake + ".v10", "screaming-kebab": "-".join(words).upper(),
+    }
+
+
+def crate_names_workspace(rng, dirs):
+    """{relative path: source} and [dict(dir, crate, items=[(kind, name)], private)] - every crate directory holds 1-3 annotated,
+    generatable items (struct / unit enum / alias / one-field tuple struct) named after the *position* of the directory (the names
+    of the crates decide nothing about the items), one un-annotated struct, and sometimes a second source file in a sub-directory"""
+    files, meta = {}, []
+    for i, d in enumerate(dirs):
+        items = [("struct", "Crate%dRecord" % i, "#[typeshare]\npub struct Crate%dRecord { pub label: String, pub count: u32 }\n" % i)]
+        extra = [("unit enum", "Crate%dMode" % i, "#[typeshare]\npub enum Crate%dMode { On, Off }\n" % i),
+                 ("alias", "Crate%dId" % i, "#[typeshare]\npub type Crate%dId = String;\n" % i),
+                 ("tuple struct", "Crate%dToken" % i, "#[typeshare]\npub struct Crate%dToken(pub String);\n" % i)]
+        items += rng.sample(extra, rng.randint(0, 2))
+        rng.shuffle(items)
+        private = "Crate%dPrivate" % i
+        second = None
+        if len(items) > 1 and rng.random() < 0.3:
+            second = items.pop()
+        files["ws/%s/src/lib.rs" % d] = "".join(s + "\n" for _, _, s in items) + "pub struct %s { pub x: u8 }\n" % private
+        if second:
+            files["ws/%s/src/more/extra.rs" % d] = second[2]
+            items.append(second)
+        meta.append(dict(dir=d, crate=d.replace("-", "_"), items=[(k, n) for k, n, _ in items], private=private))
+    return files, meta
+
+
+def crate_names_part(check):
+    """the *names of the crates* in folder mode (--output-folder: one module file per crate, the crate being the directory above `src`,
+    `-` read as `_`): 2-4 crate directories whose names are different but related as texts - equal after case folding (`API` / `api`,
+    `Billing` / `billing`), after snake / camel / Pascal / SCREAMING conversion (`authApi` / `AuthApi` / `auth_api` / `AUTH_API`), after
+    `-` -> `_` (`auth-api` / `auth_api`: one crate from two directories), after dropping separators or digits (`authapi`, `auth__api`,
+    `_auth_api`, `auth_api_`, `auth_api2` / `auth_api_2`), names that are prefixes of each other (`auth` / `auth_api` / `auth_api_ext` /
+    `auth_apis`), names with dots and digits (`auth.api`, `auth_api.v1` / `auth_api.v10`, `2auth_api`) - every listed pair of spellings
+    and random sets of 2-4 spellings of one family (sometimes next to an unrelated crate), all six languages, through the binary.
+    Demanded (read off the files the binary wrote): exit status 0 => every annotated item of every crate directory is defined exactly
+    once somewhere in the output folder, and the un-annotated ones nowhere; a run that reports an error instead is accepted.
+    Swift names the module file after the PascalCase form of the crate name, which is not injective on the unchanged tree (open finding
+    swift-module-file-collision, recorded for C14 only): crates whose Swift file names coincide are judged only if an `open:` line of
+    that id exists for this property, otherwise they are left out of the Swift runs' judgement and counted.
+    Model: the module file that holds a crate's items is named as Files.outputFileName says."""
+    import c14
+    rng = check.rng
+    sets = []           # (how, [directory names])
+    for k, (sa, sb) in enumerate(CRATE_NAME_PAIRS):
+        sp = crate_name_spellings(CRATE_NAME_BASES[(k + check.seed) % len(CRATE_NAME_BASES)])
+        if sp[sa] == sp[sb]:
+            sp = crate_name_spellings(CRATE_NAME_BASES[0])
+        pair = [sp[sa], sp[sb]]
+        if rng.random() < 0.5:
+            pair.reverse()
+        sets.append(("%s/%s" % (sa, sb), pair))
+    for _ in range(200 if check.thorough else 30):
+        sp = crate_name_spellings(rng.choice(CRATE_NAME_BASES))
+        pool = sorted(set(sp.values()))
+        dirs = rng.sample(pool, rng.randint(2, min(4, len(pool))))
+        if len(dirs) < 4 and rng.random() < 0.3:
+            dirs.insert(rng.randint(0, len(dirs)), rng.choice(CRATE_NAME_UNRELATED))
+        sets.append(("random-%d" % len(dirs), dirs))
+    runs = []
+    for how, dirs in sets:
+        files, meta = crate_names_workspace(rng, dirs)
+        swift_file = {m["crate"]: c14.file_name("swift", m["crate"]) for m in meta}
+        swift_shared = {c for c in swift_file if sum(1 for x in swift_file if swift_file[x] == swift_file[c]) > 1}
+        for lang in LANGS:
+            with Scratch() as sc:
+                for rel, text in files.items():
+                    sc.write(rel, text)
+                os.makedirs(sc.path("out"))
+                args = ["--lang", lang, "--output-folder", "out"] + lang_args(lang) + ["ws"]
+                r = run_cli(args, cwd=sc.dir)
+                written = {f: open(sc.path("out/" + f), encoding="utf-8", errors="replace").read() for f in sorted(os.listdir(sc.path("out")))}
+            check.saw(("crate-names", lang, tuple(dirs), json.dumps(files, sort_keys=True)), nontrivial=True)
+            check.count("crate-names-" + lang)
+            check.count("crate-names-set:" + how)
+            check.count("crate-names-crates:%d" % len(dirs))
+            if r["timed_out"] or r["rc"] not in (0, 1):
+                check.count("crate-names-answer:crash")
+                continue        # crashes are C07's business
+            if r["rc"] != 0:
+                check.count("crate-names-answer:error-reported")
+                continue        # reported, not silently omitted
+            check.count("crate-names-answer:ok")
+            defs = {}
+            for fn, text in written.items():
+                for d in re.findall(c14.DEF_RX[lang], text, re.M):
+                    defs.setdefault(next(x for x in (d if isinstance(d, tuple) else (d,)) if x), []).append(fn)
+            case = {"lang": lang, "crate_directories": dirs, "files": files, "command": "typeshare " + " ".join(args),
+                    "replay": "write `files` below an empty directory that has a `.git` sub-directory, create `out`, run `command` there"}
+            impl = {"rc": r["rc"], "stderr": r["err"][-800:], "written": written}
+            left_out = False
+            for m in meta:
+                for kind, name in m["items"]:
+                    n = len(defs.get(name, []))
+                    if n == 1:
+                        continue
+                    if lang == "swift" and m["crate"] in swift_shared:
+                        witness = {"crates": sorted(c for c in swift_shared if swift_file[c] == swift_file[m["crate"]]),
+                                   "swift_file": swift_file[m["crate"]], "item": name, "defined": n}
+                        if not check.known("swift-module-file-collision", witness):
+                            left_out = True         # recorded for C14, no `open:` line for this property: not judged here
+                        continue
+                    others = [x["dir"] for x in meta if x is not m]
+                    check.violation("%s, --output-folder over the crate directories %s: exit status 0 and no diagnostic, but the annotated %s "
+                                    "`%s` of the crate directory `%s` is defined %d time(s) in the output folder (files written: %s, for %d "
+                                    "crates) - a crate whose name is merely spelled like another one's (%s) is a crate of its own and its "
+                                    "items are shared too" % (lang, dirs, kind, name, m["dir"], n, sorted(written), len({x["crate"] for x in meta}),
+                                                             ", ".join("`%s`" % o for o in others)),
+                                    case=case, impl=impl, failing_input=True)
+                    return
+                if m["private"] in defs:
+                    check.violation("%s, --output-folder over the crate directories %s: the un-annotated struct `%s` of `%s` is defined in %s"
+                                    % (lang, dirs, m["private"], m["dir"], defs[m["private"]]), case=case, impl=impl, failing_input=True)
+                    return
+            if left_out:
+                check.count("crate-names-swift-PascalCase-collision-left-out")
+            for m in meta:
+                if not (lang == "swift" and m["crate"] in swift_shared):
+                    runs.append((lang, m, {fn for _, name in m["items"] for fn in defs.get(name, [])}, case))
+    # the model's file name of every crate that was judged
+    mans = model([[S("crate-name"), [m["dir"], "src", "lib.rs"], S(lang)] for lang, m, _, _ in runs], with_unicode=False)
+    for (lang, m, holders, case), ma in zip(runs, mans):
+        if ma.get("ok") != m["crate"] or holders != {ma.get("file")}:
+            check.violation("%s, folder output: the items of the crate directory `%s` are written to %s; the model has the crate `%s` and the "
+                            "module file `%s`" % (lang, m["dir"], sorted(holders), ma.get("ok"), ma.get("file")), case=case,
+                            impl={"files_holding_the_items": sorted(holders)}, model=ma, failing_input=False,
+                            broken="correspondence L0 output_file_name / find_crate_name (Files.outputFileName, Files.findCrateName; "
+                                   "theorems TsV.C14.C14_file_names_partial, findCrateName_spec)")
+            return
 
 
 def quantity_inputs(thorough):
